@@ -100,6 +100,28 @@ func TestVerifReplay(t *testing.T) {
 					if !ok {
 						return
 					}
+					// the streaming variant of the extractor must report the same ranges
+					sd, err := NewStreamingBlockDecoder(block)
+					if err != nil {
+						t.Errorf("VERIF-REPLAY: violated: %s: streaming decoder: %v", tag, err)
+						return
+					}
+					sr, err := sd.DecodeWithOffsets()
+					if err != nil || len(sr.Transactions) != 2 {
+						t.Errorf("VERIF-REPLAY: violated: %s: streaming extraction failed or miscounted: %v", tag, err)
+						return
+					}
+					ok = c07Check(t, tag+" (streaming) body 0", block, sr.Transactions[0].Body, body0) &&
+						c07Check(t, tag+" (streaming) body 1", block, sr.Transactions[1].Body, body1) &&
+						c07Check(t, tag+" (streaming) witness 0", block, sr.Transactions[0].Witness, wit0) &&
+						c07Check(t, tag+" (streaming) witness 1", block, sr.Transactions[1].Witness, wit1)
+					if ok && len(sr.Transactions[0].Outputs) == 2 {
+						ok = c07Check(t, tag+" (streaming) output 0", block, sr.Transactions[0].Outputs[0], outA) &&
+							c07Check(t, tag+" (streaming) output 1", block, sr.Transactions[0].Outputs[1], outB)
+					}
+					if !ok {
+						return
+					}
 				}
 			}
 		}
